@@ -217,3 +217,48 @@ def search_fixed(seed, n):
             if math.isfinite(float(r2.final_chi2)):
                 return dict(kind="fixed", what="an unconstrained fixed vertex made a well-posed problem unsolvable", match="fixed-vertex-singular", scenario=scenario, desc=desc), ev, outcomes
     return None, ev, outcomes
+
+
+# ----------------------------------------------------------------------------- C16
+
+
+def search_numjac(seed, n):
+    """numerical Jacobians vs analytic ones of the same edge; twin graphs converge to the same optimum"""
+    from graphslam.edge.base_edge import BaseEdge
+
+    ev = 0
+    worst = 0.0
+    eps = BaseEdge._NUMERICAL_DIFFERENTIATION_EPSILON
+    for k in range(n):
+        rng = Rng(seed, "c16search|%d" % k)
+        g, desc = G.make_graph(rng, noise=rng.choice([0.02, 0.1]), well_posed=True, custom=True, fix="first")
+        for ei, e in enumerate(g._edges):
+            if type(e).__name__ == "DistanceEdge":
+                continue  # no analytic twin on this object (its twin class is checked through the graph twin below)
+            Jn = BaseEdge.calc_jacobians(e)
+            Ja = e.calc_jacobians()
+            ev += 1
+            for a, b in zip(Jn, Ja):
+                a, b = np.asarray(a), np.asarray(b)
+                if a.shape != b.shape:
+                    return dict(kind="numjac", what="shape", match="numjac-shape", edge=desc["edges"][ei], desc=desc), ev, worst
+                # second-derivative scale: poses are O(5), errors are at most quadratic in them
+                mag = 1 + max(float(np.max(np.abs(np.asarray(v.pose)))) for v in e.vertices) + float(np.max(np.abs(np.asarray(e.estimate, dtype=np.float64))))
+                tol = 10 * eps * mag * mag + 1e-9 * mag / eps * 1e-6
+                dev = float(np.max(np.abs(a - b))) if a.size else 0.0
+                worst = max(worst, dev / tol)
+                if not dev <= tol:
+                    return dict(kind="numjac", what="numerical Jacobian differs from the analytic one by more than a 1e-6 forward difference allows", match="numjac-accuracy", deviation=dev, tol=tol, edge=desc["edges"][ei], desc=desc), ev, worst
+        # twin graphs: every analytic custom edge replaced by its numerical twin (and vice versa)
+        if any(e["kind"].startswith("custom") for e in desc["edges"]) and desc["world"] != "mixed":
+            d1 = dict(desc, edges=[dict(e, kind="custom_num") if e["kind"].startswith("custom") else e for e in desc["edges"]])
+            d2 = dict(desc, edges=[dict(e, kind="custom_ana") if e["kind"].startswith("custom") else e for e in desc["edges"]])
+            g1, g2 = G.rebuild(d1), G.rebuild(d2)
+            r1 = quiet_optimize(g1, tol=1e-10, max_iter=40)
+            r2 = quiet_optimize(g2, tol=1e-10, max_iter=40)
+            ev += 1
+            if r1.converged and r2.converged and math.isfinite(r1.final_chi2) and math.isfinite(r2.final_chi2):
+                dc = abs(r1.final_chi2 - r2.final_chi2)
+                if not dc <= 1e-5 * (1 + abs(r2.final_chi2)):
+                    return dict(kind="numjac", what="graphs with numerical and analytic Jacobians reach different optima", match="numjac-optimum", chi2_num=float(r1.final_chi2), chi2_ana=float(r2.final_chi2), desc=desc), ev, worst
+    return None, ev, worst
